@@ -235,6 +235,7 @@ class SuperLearner:
         self.est_performance['coefs'] = self.coefficients
 
         # Step 7) Fit algorithms to full data
+        self.fit_estimators = []  # a repeated fit() must not keep the candidates of the previous fit
         if self._verbose_:
             print("Fitting candidate(s) to full data...")
 
